@@ -7,7 +7,8 @@
 (* The harness runs each configuration under a directed and several        *)
 (* seeded random schedules; DispatchTrace validates the recorded traces.   *)
 (*   CLASS = "c29"   2..MAXN method calls (&self / &mut self) with 0-2      *)
-(*                   yield points, spawn disabled and enabled              *)
+(*                   yield points, possibly with suspended property        *)
+(*                   getters / setters in between; spawn disabled, enabled *)
 (*   CLASS = "c30"   2..MAXN calls of all five kinds whose handlers mutate  *)
 (*                   the object server, yield, emit                        *)
 (*   CLASS = "lazy"  1-2 calls written right after the object server was    *)
@@ -23,7 +24,12 @@ Call29 == [kind : UserKinds, body : B29]
 Call30 == [kind : Kinds \ {"intro"}, body : B30] \cup {[kind |-> "intro", body |-> <<>>]}
 CallLz == [kind : {"meth"}, body : {<<>>, <<"y">>}]
 
-Cfgs == CASE CLASS = "c29" -> UNION {[spawn : BOOLEAN, calls : [1..n -> Call29]] : n \in 2..MAXN}
+(* C29 also with property accesses in between: Properties.Get/Set always run in their own task and hold X's lock
+   while the getter / setter is suspended, so the dispatcher meets a busy interface lock when the next method call
+   arrives (at least two method calls, or there is no order to speak of) *)
+Call29p == Call29 \cup [kind : {"get", "set"}, body : {<<"y">>}]
+NUser(cs) == Cardinality({j \in DOMAIN cs : cs[j].kind \in UserKinds})
+Cfgs == CASE CLASS = "c29" -> UNION {{c \in [spawn : BOOLEAN, calls : [1..n -> Call29p]] : NUser(c.calls) >= 2} : n \in 2..MAXN}
           [] CLASS = "c30" -> UNION {[spawn : BOOLEAN, calls : [1..n -> Call30]] : n \in 2..MAXN}
           [] OTHER         -> UNION {[spawn : BOOLEAN, calls : [1..n -> CallLz]] : n \in 1..2}
 
